@@ -35,16 +35,17 @@ K_ML = "C17-print-multiline-span"
 K_RP = "C17-rowan-parser-panics-on-invalid-input"
 
 
-def par_eval(exprs, ways=8):
+def par_eval(exprs, ways=8, imports=None):
     """core.coq_eval shards by 200 expressions; C17's expressions are few and heavy, so split
     them over `ways` coqc processes ourselves (same semantics, results in order)."""
     from concurrent.futures import ThreadPoolExecutor
+    imports = imports or IMPORTS
     if len(exprs) <= 40:
-        return core.coq_eval(IMPORTS, exprs)
+        return core.coq_eval(imports, exprs)
     ways = max(1, min(ways, core.NPROC, len(exprs) // 20))
     chunks = [exprs[i::ways] for i in range(ways)]
     with ThreadPoolExecutor(max_workers=ways) as ex:
-        parts = list(ex.map(lambda ch: core.coq_eval(IMPORTS, ch), chunks))
+        parts = list(ex.map(lambda ch: core.coq_eval(imports, ch), chunks))
     out = [None] * len(exprs)
     for w, part in enumerate(parts):
         for j, r in enumerate(part):
@@ -537,6 +538,90 @@ def part_pos(run, binary, cases):
     return failures, diffs
 
 
+
+# ------------------------------------------------------------------ source tie (Gen/GenLoc.v)
+IMPORTS_SRC = IMPORTS + "From JrV Require Import Gen.GenLoc C17.ModelSource.\n"
+SRC_PREFIXES = ("C17.C17_model_is_translated_source", "C17.C17_source_")
+
+
+def tie_cases():
+    """dense, deterministic queries for the source tie: multi-byte characters, CR LF, offsets at line starts,
+    line ends, end of file, duplicates, out of order (<= 4 offsets: the harness' const-generic arities)"""
+    segs = ["", "a", "é", "😀", "€b", "a\r", "\r", "ab", "é😀"]
+    texts = []
+    for a in segs:
+        texts += [a, a + "\n", "\n" + a]
+        for b in segs[:6]:
+            texts += [a + "\n" + b, a + "\n" + b + "\n", a + "\n\n" + b, a + "\r\n" + b + "\n" + a]
+    seen, cases = set(), []
+    for t in texts:
+        if t in seen:
+            continue
+        seen.add(t)
+        bs = boundaries(t)
+        qs = [[o] for o in bs]
+        qs += [[bs[i], bs[i + 1]] for i in range(len(bs) - 1)]
+        qs += [[bs[i + 1], bs[i]] for i in range(len(bs) - 1)]
+        qs += [[o, o] for o in bs]
+        qs += [[bs[-1], bs[0], bs[-1], bs[len(bs) // 2]], [bs[len(bs) // 2]] * 3 + [bs[-1]]]
+        for q in qs:
+            cases.append((t, q))
+    return cases
+
+
+def part_tie(run, binary, cases):
+    """the TRANSLATED mapper (Gen/GenLoc.v, run by vm_compute) against the real code, all five fields:
+    checks that the translator copied what the code does.  Returns (diff descriptions, deviating cases) where a
+    deviating case is one on which the translated function and the hand model disagree."""
+    exprs = []
+    for text, offs in cases:
+        f, o = cq_nlist(cps(text)), cq_nlist(offs)
+        exprs.append(f"(map (fun c => full (to_cloc c)) (gen_offset_to_location {f} {o}), "
+                     f"map full (offset_to_location Cur {f} {o}))")
+    res = par_eval(exprs, imports=IMPORTS_SRC)
+    outs = core.run_harness(binary, "loc", [{"text": t, "offsets": o} for t, o in cases])
+    diffs, deviating, evaluated = [], [], 0
+    for (text, offs), m, o in zip(cases, res, outs):
+        if isinstance(m, tuple) and m and m[0] == "ERROR":
+            continue
+        evaluated += 1
+        gen, hand = [tuple(x) for x in m[0]], [tuple(x) for x in m[1]]
+        got = [tuple(x) for x in o["locs"]] if isinstance(o, dict) and "locs" in o else None
+        if gen != hand:
+            deviating.append((text, offs))
+        if got is not None and got != gen:
+            diffs.append(f"{json.dumps([text, offs], ensure_ascii=False)}: translated {gen} code {got}")
+        run.count("tie:" + ("agree" if got == gen else "differ"))
+    return diffs, deviating, evaluated
+
+
+def source_tie_search(run, binary):
+    """a source-tie obligation broke (translation error, or translated != model, or a SPEC corollary): look for a
+    concrete input on which the real code violates the SPEC, first where the translated function deviates."""
+    cases = tie_cases()
+    try:
+        _, deviating, evaluated = part_tie(run, binary, cases)
+    except Exception as e:  # GenLoc.v may not compile any more
+        run.log(f"search: the translated mapper could not be evaluated ({str(e)[:120]})")
+        deviating, evaluated = [], 0
+    run.log(f"search: source tie: {len(cases)} dense queries; translated mapper evaluated on {evaluated}, "
+            f"deviates from the hand model on {len(deviating)}")
+    dev = set((t, tuple(o)) for t, o in deviating)
+    ordered = deviating + [c for c in cases if (c[0], tuple(c[1])) not in dev]
+    f, _ = part_loc(run, binary, ordered)
+    if f:
+        return f
+    # the printers: planted constructs at thorough scope
+    old = run.tier
+    run.tier = "thorough"
+    try:
+        pc = pos_cases(run)
+    finally:
+        run.tier = old
+    f3, _ = part_pos(run, binary, pc)
+    return f3
+
+
 # ------------------------------------------------------------------ the check
 def corpus_cases():
     d = os.path.join(core.VERIF, "corpus", "C17")
@@ -577,11 +662,42 @@ def check(run, terrs):
         run.obligation("harness.build", False, err)
         return core.conclude(run, False, err, [], [])
     failures, model_diffs = run_all(run, binary)
+    # source tie: the translated mapper, executed, against the real code (is the translation a copy?)
+    src_broken = [n for n, ok, _ in run.obligations
+                  if not ok and (n.startswith(SRC_PREFIXES) or n == "translator.GenLoc")]
+    if not terrs:
+        tc = tie_cases()
+        tc = tc if run.tier == "thorough" else tc[::7]
+        try:
+            tdiffs, deviating, evaluated = part_tie(run, binary, tc)
+        except Exception as e:
+            tdiffs, deviating, evaluated = [f"evaluation failed: {str(e)[:200]}"], [], 0
+        run.log(f"source tie: translated mapper run on {evaluated}/{len(tc)} queries: {len(tdiffs)} differences from "
+                f"the code, {len(deviating)} deviations from the hand model")
+        run.obligation("C17.source.translated mapper executes like the code (all five fields)",
+                       not tdiffs and evaluated == len(tc), "; ".join(tdiffs[:3]))
+        if deviating and not src_broken:
+            run.obligation("C17.source.translated mapper == hand model on the dense queries", False,
+                           json.dumps(deviating[:3], ensure_ascii=False))
+        proofs_ok = proofs_ok and not tdiffs and evaluated == len(tc)
+        if tdiffs and not detail:
+            detail = "translated mapper differs from the code: " + tdiffs[0]
     run.trusted = TRUSTED
     run.assumptions = ASSUMPTIONS
+
+    def search():
+        broken = [n for n, ok, _ in run.obligations
+                  if not ok and (n.startswith(SRC_PREFIXES) or n.startswith("C17.source.") or n == "translator.GenLoc")]
+        if broken:
+            run.log(f"search: source-tie obligation(s) broke ({', '.join(broken)[:200]}): targeted position probes")
+            f = source_tie_search(run, binary)
+            if f:
+                return f
+        return run_all(run, binary, thorough_scope=True)[0]
+
     return core.conclude(
         run, proofs_ok, detail, failures, model_diffs,
-        search=(lambda: run_all(run, binary, thorough_scope=True)[0]) if run.tier == "quick" else None,
+        search=search if (run.tier == "quick" or src_broken or terrs) else None,
         level="proof", rule=RULE)
 
 
@@ -619,8 +735,11 @@ RULE = ("A: offset queries (1-4 byte offsets on character boundaries, duplicates
         "more than one character (A), more than two (B), every program (C)")
 TRUSTED = ["Coq 8.16.1 kernel incl. vm_compute (no native_compute)",
            "no axioms (all C17 theorems closed under the global context)",
-           "hand transliteration of location.rs offset_to_location, trace/mod.rs print_code_location and the "
-           "ImportSyntaxError branch of write_trace, event.rs Sink (leaves only), lex.rs loop; tie = differential run",
+           "translator/gens/locmap.py: statement-by-statement translation of location.rs offset_to_location, trace/mod.rs "
+           "print_code_location, JsFormat line/column arguments and the ImportSyntaxError branch of write_trace into "
+           "Gen/GenLoc.v (proved equal to the hand model for all inputs; prelude = models of the Rust library calls; casts "
+           "are the identity, usize `-` is N.sub); the translated mapper is also run against the code",
+           "hand transliteration of event.rs Sink (leaves only) and the lex.rs loop; tie = differential run",
            "jrharness lex/rowan/spans/loc/eval, the Debug rendering of Expr used to collect spans, vlib generators, "
            "Coq term printer/parser",
            "modelled not verified: logos' generated automaton and the text-block scanner (contract [matcher_ok] is "
